@@ -11,13 +11,17 @@ Oracle
                    getPeer/getHost at every dataReceived and at the end are the
                    header's addresses (UNKNOWN/LOCAL/UNSPEC: the transport's own).
   invalid stream : closed by the end of the stream, zero bytes forwarded, no
-                   exception out of dataReceived.  Only mutations that are
+                   exception out of dataReceived (includes a v1 line with no CRLF
+                   within its first 107 bytes).
+  several connections: other connections of the same factory that are in
+                   mid-header (or past it) while a connection is served see exactly
+                   their own header and payload (no state shared between them).  Only mutations that are
                    invalid under every reading of the specification are in this
                    class.
   gray stream    : inputs the specification calls invalid but which twisted's
                    own tests accept on purpose or a lenient receiver may accept
                    (unspecified family/protocol nibble combinations, address
-                   text / port range, trailing fields, over-long v1 line): either
+                   text / port range, trailing fields): either
                    outcome is accepted, but it has to be the same for whole and
                    segmented delivery, accepted streams must forward exactly the
                    payload, and nothing may raise.
@@ -35,10 +39,10 @@ META = dict(
     property="C47",
     level="exploration",
     technique="spec-written header encoder + segmentation metamorphic driver over HAProxyProtocolWrapper on an in-memory transport; all 1-cuts of 13 representative headers and all 2-cuts of the short ones, Hypothesis headers/payloads/cuts/mutations",
-    level_text="13 representative v1/v2 headers (TCP4, TCP6, UNKNOWN with and without tail, line of exactly 107 bytes; v2 INET/INET6/UNIX x STREAM/DGRAM, UNSPEC, LOCAL, TLVs) are delivered with every single cut of header region + 2 bytes and every pair of cuts for the headers of <= 110 bytes (quick) / all 13 (thorough); Hypothesis generates random headers of every family with random payloads (including payloads that look like headers) and random cuts, 20 classes of mutated headers and non-header streams. Segmentations are sampled for long headers; the byte-level fuzzing campaign (atheris) mentioned in DESIGN §4 is not run.",
+    level_text="13 representative v1/v2 headers (TCP4, TCP6, UNKNOWN with and without tail, line of exactly 107 bytes; v2 INET/INET6/UNIX x STREAM/DGRAM, UNSPEC, LOCAL, TLVs) are delivered with every single cut of header region + 2 bytes and every pair of cuts for the headers of <= 110 bytes (quick) / all 13 (thorough); Hypothesis generates random headers of every family with random payloads (including payloads that look like headers) and random cuts, 20 classes of mutated headers and non-header streams. Every ordered pair of the representative headers is also run as two connections of one factory, one waiting in mid-header while the other is served (state must not be shared between connections); Hypothesis adds 0-2 such waiting connections to any case. Segmentations are sampled for long headers; the byte-level fuzzing campaign (atheris) mentioned in DESIGN §4 is not run.",
     level_note="The header encoder and the address comparison (ipaddress module) are the trusted base. Delivery stops when the transport is asked to close; twisted.internet.testing.StringTransport is the transport double. Addresses are compared by value (any textual form of the same IP is accepted).",
     design_ref="§5 C47",
-    rule="case = (header description, mutation or none, payload, cuts). non-trivial = a valid header with a non-empty payload and a cut strictly inside the header region, or a mutated/non-header stream; distinct by (stream bytes, effective cut set).",
+    rule="case = (header description, mutation or none, payload, cuts, other connections of the same factory with the number of bytes each received first). non-trivial = a valid header with a non-empty payload and a cut strictly inside the header region, or a mutated/non-header stream, or a case with a second connection; distinct by (stream bytes, effective cut set, other connections).",
 )
 
 SIG = b"\r\n\r\n\x00\r\nQUIT\n"
@@ -142,9 +146,9 @@ def encode(h, mut):
     return enc_v1(h, mut) if h["v"] == 1 else enc_v2(h, mut)
 
 
-CLEAR_INVALID = {"sig", "proto", "dropfields", "port", "addrbytes", "doublespace", "nocrlf",
+CLEAR_INVALID = {"sig", "proto", "dropfields", "port", "addrbytes", "doublespace", "nocrlf", "overlong",
                  "ver", "cmd", "fam", "protonib", "shortlen"}
-GRAY = {"bigport", "oddport", "badip", "extrafield", "overlong", "combo"}
+GRAY = {"bigport", "oddport", "badip", "extrafield", "combo"}
 
 
 def classify(h, mut):
@@ -152,6 +156,8 @@ def classify(h, mut):
         return "invalid"
     if not mut:
         return "valid"
+    if h["v"] == 1 and len(enc_v1(h, mut)) > 107:
+        return "invalid"      # no CRLF within the first 107 bytes: "must fail" per the specification
     return "invalid" if mut[0] in CLEAR_INVALID else "gray"
 
 
@@ -188,40 +194,65 @@ def addr_matches(got, want):
 
 # -- driver ---------------------------------------------------------------------
 
-def deliver(segs):
-    from twisted.internet import address
+class _Conn:
+    """One connection to the wrapping factory, on its own in-memory transport."""
+
+    def __init__(self, factory):
+        from twisted.internet import address
+        from twisted.internet.testing import StringTransport
+        self.events = events = []
+        self.p = factory.buildProtocol(address.IPv4Address("TCP", *PEER))
+        self.p.wrappedProtocol.events = events
+        self.t = StringTransport(hostAddress=address.IPv4Address("TCP", *HOST),
+                                 peerAddress=address.IPv4Address("TCP", *PEER))
+        self.p.makeConnection(self.t)
+        self.fed = 0
+        self.exc = None
+
+    def feed(self, segs):
+        for s in segs:
+            if self.t.disconnecting or self.exc:
+                break
+            try:
+                self.p.dataReceived(s)
+            except Exception as e:  # always reported as a violation by check_exc(), never dropped
+                tb, where = e.__traceback__, "?"
+                while tb is not None:
+                    where = tb.tb_frame.f_code.co_filename.rsplit("/", 1)[-1] + ":" + tb.tb_frame.f_code.co_name
+                    tb = tb.tb_next
+                self.exc = (type(e).__name__, where, repr(e)[:200], isinstance(e, ValueError))
+                break
+            self.fed += 1
+
+    def outcome(self):
+        return dict(closed=bool(self.t.disconnecting), received=b"".join(e[0] for e in self.events), exc=self.exc,
+                    events=self.events, peer=self.p.getPeer(), host=self.p.getHost(), fed=self.fed, written=self.t.value())
+
+
+def deliver(segs, others=()):
+    """Deliver segs to one connection.  `others` = [(stream, k)]: further connections to the
+    same factory that have received only their first k bytes when the main connection's data
+    arrives, and get the rest afterwards.  -> (main outcome, [other outcomes])"""
     from twisted.internet.protocol import Factory, Protocol
-    from twisted.internet.testing import StringTransport
     from twisted.protocols.haproxy._wrapper import HAProxyWrappingFactory
 
-    events = []
-
     class Recorder(Protocol):
+        events = None
+
         def dataReceived(self, data):
-            events.append((bytes(data), self.transport.getPeer(), self.transport.getHost()))
+            self.events.append((bytes(data), self.transport.getPeer(), self.transport.getHost()))
 
     f = HAProxyWrappingFactory(Factory.forProtocol(Recorder))
-    p = f.buildProtocol(address.IPv4Address("TCP", *PEER))
-    t = StringTransport(hostAddress=address.IPv4Address("TCP", *HOST),
-                        peerAddress=address.IPv4Address("TCP", *PEER))
-    p.makeConnection(t)
-    fed = 0
-    exc = None
-    for s in segs:
-        if t.disconnecting:
-            break
-        try:
-            p.dataReceived(s)
-        except Exception as e:  # always reported as a violation by check_exc(), never dropped
-            tb, where = e.__traceback__, "?"
-            while tb is not None:
-                where = tb.tb_frame.f_code.co_filename.rsplit("/", 1)[-1] + ":" + tb.tb_frame.f_code.co_name
-                tb = tb.tb_next
-            exc = (type(e).__name__, where, repr(e)[:200], isinstance(e, ValueError))
-            break
-        fed += 1
-    return dict(closed=bool(t.disconnecting), received=b"".join(e[0] for e in events), exc=exc,
-                events=events, peer=p.getPeer(), host=p.getHost(), fed=fed, written=t.value())
+    waiting = []
+    for stream, k in others:
+        c = _Conn(f)
+        c.feed([stream[:k]])
+        waiting.append(c)
+    main = _Conn(f)
+    main.feed(segs)
+    for c, (stream, k) in zip(waiting, others):
+        c.feed([stream[k:]])
+    return main.outcome(), [c.outcome() for c in waiting]
 
 
 def check_exc(ctx, case, kind, h, mut, out, how):
@@ -283,10 +314,28 @@ def run_case(ctx, case):
     hlen = len(header)
     stream = header + payload
     segs = [s for s in harness.apply_cuts(stream, case["cuts"]) if s]
-    whole = deliver([stream])
-    seg = deliver(segs)
+    others = []
+    for o in case.get("others", []):
+        ostream = encode(o["hdr"], None) + o["payload"]
+        others.append((ostream, 1 + o["k"] % (len(ostream) - 1)))
+    whole, wothers = deliver([stream], others)
+    seg, sothers = deliver(segs, others)
     check_exc(ctx, case, kind, h, mut, whole, "whole delivery")
     check_exc(ctx, case, kind, h, mut, seg, "segmented delivery")
+    # connections that were waiting in mid-header while this one was served must be unaffected
+    for how, outs in (("main delivered whole", wothers), ("main delivered segmented", sothers)):
+        for i, (o, (ostream, k), out) in enumerate(zip(case.get("others", []), others, outs)):
+            ohl = len(ostream) - len(o["payload"])
+            desc = f"other connection {i} (first {k} of {ohl} header bytes before the main connection; {how})"
+            check_exc(ctx, case, "valid", o["hdr"], None, out, desc)
+            check_valid(ctx, case, o["hdr"], ostream, ohl, o["payload"], [ostream[:k], ostream[k:]], out, desc)
+    for o, (ostream, k) in zip(case.get("others", []), others):
+        ohl = len(ostream) - len(o["payload"])
+        same = o["hdr"]["v"] == h["v"]
+        ctx.count("connections: other connection waiting "
+                  + ("in mid-header" if k < ohl else "after its header")
+                  + (", same PROXY version as the main one" if same else ", other version")
+                  + ("" if k < ohl and k >= (16 if o["hdr"]["v"] == 2 else 8) or k >= ohl else " (version not yet identifiable)"))
     label = ("v%d" % h["v"]) + (":" + (h.get("proto") if h["v"] == 1 else f"{h.get('cmd')}/{h.get('fam', '-')}/{h.get('proto', '-')}") if h["v"] else "")
 
     if kind == "valid":
@@ -306,12 +355,16 @@ def run_case(ctx, case):
             ctx.count("valid: v2 with TLVs")
         if payload[:5] == b"PROXY" or payload[:4] == SIG[:4]:
             ctx.count("valid: payload looks like a header")
+        if case.get("others"):
+            ctx.nontrivial((stream, sorted(offs), others))
         if payload and cut_in_header:
             ctx.nontrivial((stream, sorted(offs)))
             if len(offs) >= 2:
                 ctx.sample(case)
     elif kind == "invalid":
         cls = mut[0] if mut else "nonheader"
+        if h["v"] == 1 and hlen > 107:
+            cls = "overlong"
         for how, out, ss in (("whole", whole, [stream]), ("segmented", seg, segs)):
             if out["received"]:
                 ctx.violation(f"invalid-bytes-forwarded[v{h['v']}-{cls}]", case,
@@ -378,6 +431,29 @@ def enum_cases(pairs_below):
         if n <= pairs_below:
             for a, b in itertools.combinations(range(1, n + 3), 2):
                 yield dict(hdr=h, mut=None, payload=ENUM_PAYLOAD, cuts=[a, b])
+
+
+def enum_pairs():
+    """Two connections on one factory: the other one is in mid-header (or just past it) while the
+    main connection is served.  Every ordered pair of representative headers."""
+    for h in REPRESENTATIVE:
+        n = len(encode(h, None))
+        for o in REPRESENTATIVE:
+            on = len(encode(o, None))
+            for k in sorted({5, 8, 12, 16, 20, on - 1, on, on + 3}):
+                if 0 < k <= on + 3:
+                    for cuts in ("whole", [min(20, n - 1)]):
+                        yield dict(hdr=h, mut=None, payload=ENUM_PAYLOAD, cuts=cuts,
+                                   others=[dict(hdr=o, payload=b"other\r\npayload", k=k - 1)])
+    # an invalid main stream must not disturb a waiting connection either
+    bad = [["proto", b"TCP5"], ["dropfields", 2], ["nocrlf", 120]]
+    for o in REPRESENTATIVE:
+        on = len(encode(o, None))
+        for m in bad:
+            for k in (9, 17, on - 1):
+                if 0 < k < on:
+                    yield dict(hdr=REPRESENTATIVE[0], mut=m, payload=b"x", cuts=[30],
+                               others=[dict(hdr=o, payload=b"other", k=k - 1)])
 
 
 def _ipv4():
@@ -455,11 +531,15 @@ def strategies():
     v2_any = st.one_of(H["v2_4"], H["v2_6"], H["v2_u"], H["v2_unspec"], H["v2_local"])
     v2_proxy = st.one_of(H["v2_4"], H["v2_6"], H["v2_u"], H["v2_unspec"])
 
+    other = st.builds(lambda h, p, k: dict(hdr=h, payload=p, k=k), any_hdr, payloads(),
+                      st.one_of(st.integers(0, 40), st.integers(0, 400)))
+    others = st.one_of(st.just([]), st.just([]), st.lists(other, min_size=1, max_size=2))
+
     @st.composite
     def valid(draw):
         h = draw(any_hdr)
         n = len(encode(h, None))
-        return dict(hdr=h, mut=None, payload=draw(payloads()), cuts=draw(cuts_for(n + 4)))
+        return dict(hdr=h, mut=None, payload=draw(payloads()), cuts=draw(cuts_for(n + 4)), others=draw(others))
 
     def mk(hs, ms):
         @st.composite
@@ -467,7 +547,8 @@ def strategies():
             h = draw(hs)
             m = ms(h) if callable(ms) else draw(ms)
             n = len(encode(h, m))
-            return dict(hdr=h, mut=m, payload=draw(payloads()), cuts=draw(st.one_of(st.just("whole"), cuts_for(n + 4))))
+            return dict(hdr=h, mut=m, payload=draw(payloads()), cuts=draw(st.one_of(st.just("whole"), cuts_for(n + 4))),
+                        others=draw(others))
         return s()
 
     other = lambda orig: st.integers(0, 255).filter(lambda b: b != orig)
@@ -517,6 +598,11 @@ def run(ctx):
     ctx.extra["enumerated"] = ("13 representative headers: whole, bytewise and every single cut in 1..len(header)+2; "
                                f"every pair of cuts for headers of <= {ctx.pick(110, 300)} bytes")
     ctx.exhaustive = False
+    if ctx.has_violation():
+        return
+    enumerate_run(ctx, enum_pairs(), run_case)
+    ctx.extra["enumerated_connections"] = ("every ordered pair of the 13 representative headers as (main, other) connection of one "
+                                           "factory, the other one having received 5, 8, 12, 16, 20, len-1, len, len+3 bytes first")
     if ctx.has_violation():
         return
     if ctx.thorough:
